@@ -45,6 +45,7 @@ impl Session {
             Ok(re) => re.split(&self.text).map(|item| item.to_string()).collect::<Vec<_>>(),
             _ => self.text.lines().map(|item| item.to_string()).collect::<Vec<_>>()
         };
+        self.position.set(0);
     }
 
     /// Set the language used to interpret input.
